@@ -2,6 +2,7 @@ import Driver.Util
 import Driver.DictRt
 import Driver.Codec
 import Model.Conn
+import Model.Listener
 /-! Driver.Conn — the `conn serve` correspondence domain (C08, C14, C15, C05 over a connection). -/
 namespace DV.Drv
 
@@ -13,28 +14,44 @@ def snapshot (s : CN) : String :=
   let ids := ".".intercalate (s.handed.map (fun m => toString m.hdr.hbh))
   s!"{showChan s.chan},{if ids = "" then "-" else ids},{s.active},{if s.reader = .exited then "x" else "r"}{if s.copier = .reading ∨ s.copier = .writing then "c" else "-"},{if s.closed then "closed" else "open"},{s.reports}"
 
-def parseConnEv (t : String) : Option (Nat × CEv) :=
+/-- an event of the script: on connection `k`, or a handler registration on the shared mux -/
+inductive ScriptEv where
+  | conn (k : Nat) (e : CEv)
+  | register
+
+def parseConnEv (t : String) : Option ScriptEv :=
   match t.splitOn ":" with
   | [c, e] =>
     let k := c.toNat?.getD 0
-    if e = "E" then some (k, .peerEof)
-    else if e = "R" then some (k, .readErr)
-    else if e = "L" then some (k, .localClose)
-    else if e = "N" then some (k, .requestCN)
-    else if e = "H" then some (k, .handlerReturn)
-    else if e = "P" then some (k, .handlerPanic)
-    else if e.startsWith "D" then (fromHex (e.drop 1).toString).map (fun b => (k, CEv.deliver b))
+    if e = "E" then some (.conn k .peerEof)
+    else if e = "R" then some (.conn k .readErr)
+    else if e = "T" then some (.conn k .readTimeout)
+    else if e = "L" then some (.conn k .localClose)
+    else if e = "N" then some (.conn k .requestCN)
+    else if e = "H" then some (.conn k .handlerReturn)
+    else if e = "P" then some (.conn k .handlerPanic)
+    else if e = "M" then some .register
+    else if e.startsWith "D" then (fromHex (e.drop 1).toString).map (fun b => .conn k (CEv.deliver b))
     else none
   | _ => none
 
-/-- `conn serve n=<conns> ev=<c:E,c:D<hex>,...> => <snap0>|<snap1>.. ; ...` (one group per event) -/
-def judgeConn (d : DictRt) (n : Nat) (evTok : String) (impl : List String) : Judged :=
+/-- `conn serve n=<conns> [h=mux] [x=1] ev=<c:E,c:D<hex>,...> => <snap0>|<snap1>.. ; ...` (one group per event).
+    `x=1`: the transport returns its last bytes together with the EOF / error (`CN.coal`).
+    `h=mux` (handlers reached through a shared `ServeMux`) does not change what the model
+    predicts: that it makes no difference is part of what is being checked. -/
+def judgeConn (d : DictRt) (n : Nat) (useMux coal : Bool) (evTok : String) (impl : List String) : Judged :=
   let dfn := d.dictFn
   let evs := (evTok.splitOn ",").filterMap parseConnEv
-  let init : List CN := List.replicate n (CN.settle dfn 10 {})
-  let (_, outs, skipped, maxAct, chanBad) := evs.foldl (fun (acc : List CN × List String × Nat × Nat × List String) (ke : Nat × CEv) =>
+  let init : List CN := List.replicate n (CN.settle dfn 10 { coal := coal })
+  let (_, outs, skipped, maxAct, chanBad) := evs.foldl (fun (acc : List CN × List String × Nat × Nat × List String) (ev : ScriptEv) =>
       let (conns, outs, skipped, mx, bad) := acc
-      let (k, e) := ke
+      match ev with
+      | .register =>
+        -- a registration takes the mux write lock: possible only while no handler runs; it
+        -- changes nothing on any connection
+        if useMux ∧ conns.all (fun s => s.active = 0) then (conns, outs ++ ["|".intercalate (conns.map snapshot)], skipped, mx, bad)
+        else (conns, outs ++ ["skip"], skipped + 1, mx, bad)
+      | .conn k e =>
       match conns[k]? with
       | none => (conns, outs, skipped + 1, mx, bad)
       | some s =>
@@ -50,29 +67,78 @@ def judgeConn (d : DictRt) (n : Nat) (evTok : String) (impl : List String) : Jud
   -- Spec verdicts on the implementation's own snapshots
   let implSnaps := (implOut.splitOn " ; ").map (fun g => g.splitOn "|")
   let modelSnaps := outs.map (fun g => g.splitOn "|")
+  let hasTimeout := evs.any (fun e => match e with | .conn _ .readTimeout => true | _ => false)
+  let hasPanic := evs.any (fun e => match e with | .conn _ .handlerPanic => true | _ => false)
   Id.run do
     let mut fails : List String := []
     let field := fun (snap : String) (i : Nat) => (snap.splitOn ",").getD i ""
     -- C08: never two handlers active on a connection; handed sequence = model's (arrival order)
     for g in implSnaps do
       for sn in g do
-        if sn ≠ "skip" ∧ (field sn 2).toNat?.getD 0 > 1 then fails := "C08:two-handlers-active-on-one-connection" :: fails
+        if sn = "regblocked" then
+          fails := (if hasPanic then "C15:mux-unusable-after-handler-panic" else "C08:mux-registration-blocked") :: fails
+        else if sn ≠ "skip" ∧ (field sn 2).toNat?.getD 0 > 1 then fails := "C08:two-handlers-active-on-one-connection" :: fails
     if implSnaps.length = modelSnaps.length then
       for (gi, gm) in implSnaps.zip modelSnaps do
         for (si, smm) in gi.zip gm do
           if si ≠ smm ∧ si ≠ "skip" ∧ smm ≠ "skip" then
             if field si 1 ≠ field smm 1 then
               fails := (if (field smm 1).startsWith (field si 1) ∨ field si 1 = "-" then "C08:message-not-dispatched-or-delayed" else "C08:handler-order-or-messages-differ") :: fails
+              if hasTimeout then fails := "C05:framing-lost-after-failed-read" :: fails
             else if field si 0 ≠ field smm 0 then
               fails := (if field smm 0 = "closed" then "C14:close-notify-did-not-fire" else if field si 0 = "closed" then "C14:close-notify-fired-early-or-unrequested" else "C14:channel-state-differs") :: fails
             else if field si 3 ≠ field smm 3 then
               fails := (if (field smm 3).startsWith "x" ∧ (field si 3).startsWith "r" then "C14:reader-goroutine-still-alive" else if (field si 3).endsWith "c" then "C14:copier-goroutine-still-alive" else "C14:goroutines-differ") :: fails
+              if hasTimeout then fails := "C05:connection-continues-after-failed-read" :: fails
             else if field si 4 ≠ field smm 4 then
               fails := (if field smm 4 = "closed" then "C15:faulty-connection-not-closed" else "C15:connection-closed-unexpectedly") :: fails
+              if hasTimeout then fails := "C05:connection-continues-after-failed-read" :: fails
             else if field si 5 ≠ field smm 5 then fails := "C15:error-report-count-differs" :: fails
             else fails := "C08:snapshot-differs" :: fails
     else if implOut ≠ out then fails := "C08:event-count-differs" :: fails
-    return { model := out, fails := fails.reverse.eraseDups.take 3,
-             tags := [s!"conns={n} events={evs.length} skipped={skipped} maxActive={maxAct}"] ++ chanBad }
+    return { model := out, fails := fails.reverse.eraseDups.take 4,
+             tags := [s!"conns={n} events={evs.length} skipped={skipped} maxActive={maxAct}{if useMux then " mux" else ""}"] ++ chanBad }
+
+/-- `conn accept ev=A,T,F,U,P,... => A:served=1,run ; T:ms=5,run ; P:stopped,lclosed=1 ; ... ; alive=k/n`.
+    Sleeps are compared as ranges: `time.Sleep(d)` lasts at least `d`; the upper slack covers
+    scheduling on a loaded machine. -/
+def judgeAccept (evTok : String) (impl : List String) : Judged :=
+  let evs := evTok.splitOn ","
+  let implOut := " ".intercalate impl
+  let groups := implOut.splitOn " ; "
+  let step := fun (acc : LS × List String × List String) (eg : String × String) =>
+    let (s, outs, fails) := acc
+    let (e, g) := eg
+    let ev : Option LEv := if e = "A" then some .acceptOk else if e = "T" ∨ e = "F" ∨ e = "U" then some .acceptTemp else if e = "P" then some .acceptPerm else none
+    match ev with
+    | none => (s, outs, fails)
+    | some ev =>
+      match s.step ev with
+      | none => (s, outs ++ ["skip"], if g = "skip" then fails else fails ++ ["C15:listener-state-differs"])
+      | some s' =>
+        match ev with
+        | .acceptOk =>
+          let want := s!"A:served=1,run"
+          (s', outs ++ [want], if g = want then fails else fails ++ [if g.startsWith "A:served=0" then "C15:accepted-connection-not-served" else "C15:server-stopped-accepting"])
+        | .acceptTemp =>
+          let d := s'.delay
+          let want := s!"{e}:ms={d},run"
+          let ok : Bool := match (g.splitOn ":ms=") with
+            | [e', rest] =>
+              (match rest.splitOn "," with
+               | [ms, st] => e' == e && st == "run" && (match ms.toNat? with | some m => decide (d ≤ m + 1 ∧ m ≤ 2 * d + 400) | none => false)
+               | _ => false)
+            | _ => false
+          (s', outs ++ [if ok then g else want], if ok then fails else fails ++ [if g.endsWith ",run" then "C15:accept-backoff-differs" else "C15:transient-accept-error-stops-server"])
+        | .acceptPerm =>
+          let want := "P:stopped,lclosed=1"
+          (s', outs ++ [want], if g = want then fails else fails ++ ["C15:permanent-accept-error-handling-differs"])
+  let (s, outs, fails) := (evs.zip groups).foldl step ({}, [], [])
+  let wantAlive := s!"alive={s.spawned}/{s.spawned}"
+  let lastG := groups.getLast?.getD ""
+  let fails := if lastG = wantAlive then fails else fails ++ ["C15:accepted-connections-no-longer-served"]
+  let fails := if groups.length = evs.length + 1 then fails else fails ++ ["C15:event-count-differs"]
+  { model := " ; ".intercalate (outs ++ [wantAlive]), fails := fails.eraseDups.take 3,
+    tags := [s!"accept events={evs.length} spawned={s.spawned} temp={s.slept.length} maxsleep={s.slept.foldl max 0} stopped={!s.running}"] }
 
 end DV.Drv
